@@ -48,7 +48,7 @@ WORLD_ASSUMPTIONS = COMMON_ASSUMPTIONS + [
 ]
 
 
-def world(prop, test, rule, quick=(12, 150), thorough=(16, 4000), **kw):
+def world(prop, test, rule, quick=(12, 200), thorough=(16, 4000), **kw):
     d = {
         "replay_test": "TestWorldReplay",
         "replay_times": 25,
@@ -76,6 +76,10 @@ CHECKS["C05"] = {
     **world("C05", "TestC05", HIST + "profile limits (named users/groups, wildcards, nested, tight); non-trivial = a scheduling decision for a user/group with a configured limit on the "
             "application's queue path; plus sequences of UpdateConfig on ugm.Manager: non-trivial = >=2 reloads of which one changes or drops a limit of a tracker holding usage"),
 }
+CHECKS["C04"]["runs"].append({"test": "TestC04Reserve", "shards_quick": 4, "checks_quick": 250, "shards_thorough": 8, "checks_thorough": 3000})
+CHECKS["C04"]["rule"] += "; second run: profile reserve, non-trivial = a reservation was made and a reserved ask was allocated, released or reported as bound by the shim"
+CHECKS["C05"]["runs"].append({"test": "TestC05Reserve", "shards_quick": 4, "checks_quick": 250, "shards_thorough": 8, "checks_thorough": 3000})
+CHECKS["C05"]["rule"] += "; second run: profile limits-reserve (small nodes, reservations), non-trivial = a decision under a limit and an allocation of a reserved ask"
 CHECKS["C09"] = world("C09", "TestC09", HIST + "profile reserve (reservation delay 0, small nodes, 30% required-node asks); non-trivial = a reservation was made and one was removed by "
     "something other than a scheduling cycle (ask/app/node removal, RM reported binding)")
 CHECKS["C10"] = world("C10", "TestC10", HIST + "profile churn-apps; non-trivial = an application that visited at least 4 states")
